@@ -1,15 +1,34 @@
-"""C07 - bounded contracts on the coordinate side (vf/e3/geom.py) + E2 obligations (vf/e2) where available."""
+"""C07 - E2 obligations over the reals on the real source (vf/e2) + bounded contracts on the coordinate side (vf/e3/geom.py)."""
 import time
 
-from ..core import Report
+from ..core import Report, src_info
 from ..e3 import geom
+from ..par import pmap
+
+E2 = {"07": ["ob_handedness", "ob_tetrahedral", "ob_planar_bond"], "20": ["ob_pairwise", "ob_cutoff_table"]}["07"]
+FUNCS = {"07": [("coords.py", "handedness"), ("xyz2graph.py", "_tetrahedral_from_coords"), ("xyz2graph.py", "_planar_bond_from_coords")],
+         "20": [("coords.py", "pairwise_distances"), ("coords.py", "_DefaultFuncDict.array"), ("coords.py", "_DefaultFuncDict.__missing__"), ("coords.py", "default_connectivity_cutoff")]}["07"]
 
 
 def run(tier, seed):
     t0 = time.time()
     rep = Report("C07", tier, seed)
-    rep.level = "exploration"
+    rep.level = "other"
+    for obs, _ in pmap("vf.e2.obligations", [(f, (tier,)) for f in E2]):
+        rep.obs.extend(obs)
     geom.run_c07(rep, tier, seed)
-    rep.rule = "idealised templates with noise / random point sets / repository XYZ data x rigid motions, reflections, atom permutations (seeded); distinct_nontrivial = distinct base geometries"
-    rep.assumptions = ["bounded: only the enumerated geometries and transformations are covered", "general position: cases within 1e-6 (1e-5 far from the origin) of a bonding threshold are skipped"]
+    rep.functions = [src_info(*f) for f in FUNCS]
+    proof = [o for o in rep.obs if o.kind == "proof"]
+    rep.rule = ("E2: polynomial identities derived by executing the real source over sympy expressions; E3: idealised templates with noise / random point sets / "
+                "repository XYZ data x rigid motions, reflections, atom permutations (seeded); distinct_nontrivial = distinct base geometries")
+    rep.trusted_base = ["sympy exact polynomial arithmetic", "numpy indexing/broadcasting on object arrays (the proxy overrides only sqrt, sign, norm, divide, multiply, square, sum, dot, cross)",
+                        "oracle symmetry groups (vf/spec/groups.py)"]
+    rep.assumptions = ["IEEE doubles are treated as real numbers in the E2 obligations",
+                       "general position: no quantity whose sign is taken is exactly zero; bounded cases within 1e-6 (1e-5 far from the origin) of a bonding threshold, or on a planarity threshold "
+                       "(point sets for which are_planar depends on the point order, see the known finding), are skipped",
+                       "rotation invariance is proved for the three axis rotations modulo c^2+s^2=1 (they generate SO(3)); the thorough tier adds the quaternion parametrisation of all of SO(3)",
+                       "vectorised numpy code is executed symbolically for a fixed number of points (4 resp. 6); the formulas are uniform in the number of points",
+                       "bounded: TBP / square-planar / octahedral perception, whole-graph equivariance, XYZ text round trip, threshold exactness on doubles"]
+    rep.explanation = f"{len(proof)} identities over the reals discharged by exact expansion on the real source; the remaining clauses are bounded (coverage.bounded_groups)"
+    rep.samples = [o.name for o in proof][:8]
     return rep, t0
